@@ -1095,20 +1095,22 @@ class TermCanvas(Canvas):
                 if idx + 2 < len(attrs) and attrs[idx + 1] == 5:
                     # 8 bit color specification
                     color = attrs[idx + 2]
-                    colors = max(256, colors)
-                    if attr == 38:
-                        fg = color
-                    else:
-                        bg = color
+                    if 0 <= color <= 255:
+                        colors = max(256, colors)
+                        if attr == 38:
+                            fg = color
+                        else:
+                            bg = color
                     idx += 2
                 elif idx + 4 < len(attrs) and attrs[idx + 1] == 2:
                     # 24 bit color specification
-                    color = (attrs[idx + 2] << 16) + (attrs[idx + 3] << 8) + attrs[idx + 4]
-                    colors = 2**24
-                    if attr == 38:
-                        fg = color
-                    else:
-                        bg = color
+                    if all(0 <= component <= 255 for component in attrs[idx + 2 : idx + 5]):
+                        color = (attrs[idx + 2] << 16) + (attrs[idx + 3] << 8) + attrs[idx + 4]
+                        colors = 2**24
+                        if attr == 38:
+                            fg = color
+                        else:
+                            bg = color
                     idx += 4
             elif attr == 39:
                 # set default foreground color
